@@ -1,4 +1,4 @@
 From Coq Require Import Extraction ExtrOcamlBasic NArith.
 From DV Require Import Base.Outcome C17.Gen C17.Model.
 Extraction Language OCaml.
-Extraction "../build/ml/C17/model.ml" c17_cmp c17_add c17_next c17_ccmp c17_sigtime c17_uptodate c17_diffrange c17_date c17_fromtime.
+Extraction "../build/ml/C17/model.ml" c17_cmp c17_add c17_next c17_ccmp c17_sigtime c17_uptodate c17_diffrange c17_date c17_fromtime c17_commit.
